@@ -346,6 +346,31 @@ def check(model, rep, tier):
             _fm2.implies(rf, none_)[0], 'CTX-TABLE',
             '%s:unknown-context-raises' % ts.site,
             'an unknown expression context must raise', line=ts.node.lineno)
+  # a name is comprehension-local when *any* enclosing comprehension binds it:
+  # the test walks the whole stack of comprehension frames, not only the top
+  tsv = ts.view()
+  tsfi = core.FuncInfo(ts.module, tsv, cls=ts.cls)
+  # (in _track_symbol itself, or in a predicate method it calls)
+  where = [tsfi] + [cls.methods[c_.func.attr] for c_ in ast.walk(tsv)
+                    if isinstance(c_, ast.Call) and isinstance(c_.func, ast.Attribute) and
+                    core.norm(c_.func.value) == 'self' and c_.func.attr in cls.methods and
+                    c_.func.attr != ts.name]
+  lv_ok = False
+  for fi_ in where:
+    for lp_ in ast.walk(fi_.node):
+      if isinstance(lp_, ast.For) and isinstance(lp_.target, ast.Name) and tpl.xnorm(
+          fi_, lp_.iter, lp_.iter) == 'self.state[_Comprehension]':
+        tv_ = lp_.target.id
+        for x in ast.walk(lp_):
+          if isinstance(x, ast.Compare) and len(x.ops) == 1 and isinstance(
+              x.ops[0], ast.In) and isinstance(x.left, ast.Name) and tpl.xnorm(
+                  fi_, x.comparators[0], x) == tv_ + '.targets':
+            lv_ok = True
+  rep.check(lv_ok, 'CTX-TABLE', '%s:every-comprehension-level' % ts.site,
+            'whether a name is bound by a comprehension is decided over every '
+            'enclosing comprehension frame: a nested comprehension reads the targets '
+            'of the outer ones', line=ts.node.lineno,
+            witness='[[x * y for y in ys] for x in xs]: x is not free in the function')
   vaug = cls.methods.get('visit_AugAssign')
   src = [core.norm(s) for s in vaug.node.body]
   ok = 'self._in_aug_assign = True' in src and 'self._in_aug_assign = False' in src
